@@ -918,6 +918,11 @@ func c06Run(c *core.Ctx) {
 					in := l1 + "\n" + l2 + "\r\nshort\n"
 					want := [][]*string{{sp(slice(l1, n-4, 6)), sp("AB1")}, {sp(slice(l2, n-4, 6)), sp("CD2")}, {sp(""), sp("sho")}}
 					emit(c06Case{Family: fmt.Sprintf("%s|single long lines around %d bytes", format, n), Schema: st, Input: []byte(in), Want: want}, nil, format+"-longline")
+					// the long line as the LAST line of the input, without a line break after it
+					emit(c06Case{Family: fmt.Sprintf("%s|last line of about %d bytes without a line break", format, n), Schema: st, Input: []byte("short\n" + l2),
+						Want: [][]*string{{sp(""), sp("sho")}, {sp(slice(l2, n-4, 6)), sp("CD2")}}}, nil, format+"-longline-unterminated")
+					emit(c06Case{Family: fmt.Sprintf("%s|only line of about %d bytes without a line break", format, n), Schema: st, Input: []byte(l1),
+						Want: [][]*string{{sp(slice(l1, n-4, 6)), sp("AB1")}}}, nil, format+"-longline-unterminated")
 				}
 			}
 		}
